@@ -474,3 +474,21 @@ theorem init_inv {code : Code} {t : ProgTabs} {G : Nat} (hck : checkProgram code
       | fn fn ref => exact ⟨fn, ref, rfl⟩
 
 end Tengo.Model.VM
+
+namespace Tengo.Model.VM
+open Tengo.Model Tengo.Model.Spec Tengo.Model.Opcodes Tengo.Model.Verifier
+
+/-- In a verified program a frame that stands at the start of its function has an empty operand
+stack: `sp = bp + NumLocals`. (After a self tail call the frame stands there again — see
+`Tengo.Props.VM.tail_call_constant_space`.) -/
+theorem entry_sp {code : Code} {t : ProgTabs} {G : Nat} (hck : checkProgram code G t = true) {c : Core}
+    (hinv : Inv code t G c) (hip : c.cur.ip = -1) :
+    ∃ f, code.fn c.cur.fnIdx = some f ∧ c.regs.sp = c.cur.bp + f.numLocals := by
+  obtain ⟨ft, f, i, h, htab, hfn, hat, hipEq, hget, hsp, _⟩ := hinv.cur
+  obtain ⟨f', facts⟩ := fn_facts hck htab
+  have hpos : i.pos = 0 := by rw [hip] at hipEq; omega
+  rw [hpos, facts.h0] at hget
+  injection hget with hget
+  exact ⟨f, hfn, by rw [hsp, ← hget]; rfl⟩
+
+end Tengo.Model.VM
